@@ -1,14 +1,15 @@
-import H2T.Render
+import H2T.Lemmas.RenderFits
 
 /-! # C08 — link footnotes are numbered consistently with their references
 
 The number printed after a link is the length of the renderer's global link list at the moment the link ends;
 the list grows by exactly one target at each `start_link` and is touched by nothing else; the footnote list is
-`[k]: target_k` for `k = 1..n` in the order of that list.  Status: **partial** — proved for the simple
-operations of the nested program (every operation that is not a sub-renderer/table frame); the threading of the
-list through `sub`, `table`, `row` and `cell` is definitional in `runOp`/`runCells` (the list is passed in and
-out).  That the k-th reference is `[k]` needs links not to nest; nested links (possible only through a table
-cell) and links whose content is only deeply empty are known findings with witnesses. -/
+`[k]: target_k` for `k = 1..n` in the order of that list.  Status: **proved for whole programs** as far as the
+list is concerned (`links_follow_document_order`: after any program the list has grown by a sub-sequence of the link
+targets the document mentions, in document order — exactly the targets when nothing was skipped; only table cells of
+width 0 skip; `footnote_list_shape`: the footnote block is `[k]: target_k`, `k = 1..n`, for that list).  That the
+k-th reference printed *in the text* is `[k]` additionally needs links not to nest; nested links (possible only
+through a table cell) and links whose content is only deeply empty are known findings with witnesses. -/
 
 namespace H2T.C08
 
@@ -47,6 +48,26 @@ theorem other_ops_keep_links (cfg : Cfg) (d : Deco) (t t' : RS) (op : Op)
   all_goals first
     | exact onCur _ _ _ h
     | (injection h with h; subst h; rfl)
+
+/-- **the link list follows document order**: running the program of a tree from an empty list ends with a
+    sub-sequence of the tree's link targets in document order (`nodeHrefs`); nothing is invented, duplicated or
+    reordered, wherever the links occur (paragraphs, lists, quotes, headings, cells, nested tables) -/
+theorem links_follow_document_order (cfg : Cfg) (d : Deco) (w : Nat) (tree : RNode) (t : RS)
+    (h : runOps SubR.widthMinus cfg d { cur := { width := w } } (compile cfg d tree) = .ok t) :
+    t.links.Sublist (nodeHrefs tree) := by
+  obtain ⟨added, e1, e2⟩ := runOps_links SubR.widthMinus cfg d _ _ t h
+  rw [e1, compile_hrefs] at *
+  simpa using e2
+
+/-- the footnote block: entry `k` (1-based) is `[k]: ` followed by the `k`-th target of the link list; with footnotes
+    disabled there is no block -/
+theorem footnote_list_shape (cfg : Cfg) (links : List (List Ch)) :
+    footTexts cfg links = if cfg.footnotes then (links.zipIdx.map fun (u, i) => strCh "[" ++ natCh (i + 1) ++ strCh "]: " ++ u) else [] :=
+  rfl
+theorem footnote_list_length (cfg : Cfg) (links : List (List Ch)) (hf : cfg.footnotes = true) :
+    (footTexts cfg links).length = links.length := by simp [footTexts, hf]
+theorem no_footnotes_no_list (cfg : Cfg) (links : List (List Ch)) (hf : cfg.footnotes = false) : footTexts cfg links = [] := by
+  simp [footTexts, hf]
 
 /-- the reference printed at the end of a link is the current length of the link list -/
 theorem endLink_reference (cfg : Cfg) (d : Deco) (t : RS) (hf : cfg.footnotes = true) :
